@@ -8,7 +8,8 @@ EXPLANATION = (
     "D1 operator scan table ('>' / '<' followed by '=' or not -> GE/LE/GT/LT with version start +2/+2/+1/+1) and validation table over (operator count 0/1/2/>=3 x operator kinds): Ok iff one operator, or two with the first in {GT,GE} and the second in {LT,LE}; "
     "bound texts and base are the slices between the recorded operator positions; each bound is DeweyMatch{op, DeweyVersion::new(text)}; "
     "D2 Dewey::matches splits at the last '-', compares the prefix with the stored base by full string equality (no prefix/suffix/case-folding test), a name without '-' is false, the suffix is the version; "
-    "D3 conjunction of bounds (shared with C03); D4 brace-free patterns with '<' or '>' are compiled by Dewey::new(pattern)? in Pattern::new and matched by Dewey::matches(pkg) in Pattern::matches, and the fast-reject in front of the delegate is inert (is_simple_char / quick_pkg_match / early-exit rules shared with C05); recognised spellings: the '=' look-ahead as get(i+1..i+2), [i+1..].starts_with('='), as_bytes().get(i+1); the validation as match on len() or as slice patterns; the bounds as pushes or as a vector literal (all bounds kept, in order)")
+    "D3 conjunction of bounds (shared with C03); D4 brace-free patterns with '<' or '>' are compiled by Dewey::new(pattern)? in Pattern::new and matched by Dewey::matches(pkg) in Pattern::matches, and the fast-reject in front of the delegate is inert (is_simple_char / quick_pkg_match / early-exit rules shared with C05); recognised spellings: the '=' look-ahead as get(i+1..i+2), [i+1..].starts_with('='), as_bytes().get(i+1); the validation as match on len() or as slice patterns; the bounds as pushes or as a vector literal (all bounds kept, in order)"
+    " D-ORDER 'inside its range' is decided by the version order: C01's D1-TOK-TABLE / D1-ADVANCE / D1-CURSOR / D2-TOK-CASE and C03's CMP-2..5 / CMP-RET verdicts are shared instances of this check.")
 NOT_DECIDED = ["byte-for-byte equality semantics of str::eq; match_indices / str::get semantics (std)"]
 CONFIG_SENSITIVE = False
 DESUGAR = True
@@ -348,3 +349,8 @@ def run(ctx):
 
     # the fast-reject in front of the delegate must be inert, or Pattern disagrees with Dewey (shared with C05)
     delegate_and_fast_reject(ctx, only_fast_reject=True, P="D4-")
+
+    # ---- D-ORDER: "inside its range" is decided by the version order: how a version text is read (the tokeniser's table, cursor and saturation
+    #      rules of C01) and how two versions are compared (C03's CMP rules) are part of what this property states; their verdicts are shared here
+    share_rules(ctx, "C01", ("D1-TOK-TABLE", "D1-ADVANCE", "D1-CURSOR", "D2-TOK-CASE"), "D-ORDER", "dewey::DeweyVersion::new", 10)
+    share_rules(ctx, "C03", ("CMP-2", "CMP-3", "CMP-4", "CMP-5", "CMP-RET"), "D-ORDER", "dewey::dewey_cmp", 10)
